@@ -44,6 +44,8 @@ def run(chk, prog, dom=3):
     R_l = chk.rule('S.lifetime', 'no storage is used or freed after it was released')
     R_d = chk.rule('S.deep-copy', 'no pointer loaded from one container\'s storage is stored into another container')
     R_s = chk.rule('S.slots', 'no pointer slot is dereferenced before an object was stored in it')
+    R_w = chk.rule('S.written', 'every cell below the row/col/size counts at exit that lies in storage the operation allocated itself '
+                   'has been stored to (newly exposed cells are defined, not indeterminate)')
     ck = Checker(prog, dom=dom)
     nfun = 0
     for unit, names in STRICT.items():
@@ -78,6 +80,39 @@ def run(chk, prog, dom=3):
                 chk.instance(R_p, '%s: %s' % (name, msg), 'refuted')
                 chk.violation(Finding('S.post-invariant', rel(f.file), name, msg.split(' of ')[0][:60], f.where,
                                       '%s: %s' % (name, msg), witness=w))
+            # cells of storage allocated by the operation that lie below the counts at exit must have been written
+            wres = {}
+            for st in eng.exit_states:
+                if st.overflow:
+                    continue
+                for fk, v_ in st.fresh.items():
+                    sh = st.shapes.get(v_['p'])
+                    if sh is None or sh.freed is True:
+                        continue
+                    if v_['lo'] is None:
+                        upto, live, what = sh.f.get('size'), [], 'cells of %s->data' % v_['p']
+                    else:
+                        upto, live = sh.f.get('col'), [sh.f['row'] - v_['lo'] - 1]
+                        what = 'cells of rows [%s,%s) of %s' % (v_['lo'], v_['hi'], v_['p'])
+                    if upto is None:
+                        continue
+                    verdict, w = eng.written_gaps(st, v_, upto, live)
+                    k = (v_['where'], what)
+                    rank = {'refuted': 2, 'undecided': 1, 'proved': 0}
+                    if k not in wres or rank[verdict] > rank[wres[k][0]]:
+                        wres[k] = (verdict, w, upto, v_)
+            for (where, what), (verdict, w, upto, v_) in sorted(wres.items(), key=repr):
+                iv = ', '.join('[%s,%s)' % (a_, b_) for a_, b_ in v_['w']) or 'nothing'
+                desc = '%s %s: %s allocated here are written up to %s (written: %s)' % (where, name, what, upto, iv)
+                if verdict == 'proved':
+                    chk.instance(R_w, desc)
+                elif verdict == 'undecided':
+                    chk.instance(R_w, desc, 'undecided')
+                else:
+                    chk.instance(R_w, desc, 'refuted')
+                    chk.violation(Finding('S.written', rel(f.file), name, 'alloc@' + what, where,
+                                          '%s: %s are allocated at %s but only %s is written before return, the count at exit is %s: '
+                                          'the remaining cells hold indeterminate values' % (name, what, where, iv, upto), witness=w))
     # scenario: destructors must tolerate the skeleton state produced by NewTensor (every block NULL)
     for name in ('DelTensor',):
         f = prog.funcs.get(name)
